@@ -917,7 +917,6 @@ func fnIn(l []*ssa.Function, f *ssa.Function) bool {
 	return false
 }
 
-
 // checkNestingCounter: R18.13.
 func checkNestingCounter(c *Ctx, p *core.Prog, lexFns []*ssa.Function, match *ssa.Function) {
 	nLoops := 0
@@ -1089,7 +1088,6 @@ func checkNestingCounter(c *Ctx, p *core.Prog, lexFns []*ssa.Function, match *ss
 		c.R.Info("R18.13", "nested comments", "-", "no loop tests Language.NestedComments")
 	}
 }
-
 
 // checkNewlineEndsString: R18.17. Some languages end a string literal at the end of the line (a quote inside an unquoted
 // regular expression). That exit is taken for a newline only, whatever the language: the code behind a test `c == '\n'` that
